@@ -161,6 +161,8 @@ impl<IvkTag, D: Domain, M> BatchReceiver<IvkTag, D, M> {
         // note has been sent to the channel). Completion of the iterator therefore
         // corresponds to complete knowledge of the outputs of this transaction that could
         // be decrypted.
+        #[cfg(zcash_librustzcash_verif)]
+        verif::drain();
         self.0
             .into_iter()
             .map(
@@ -200,6 +202,10 @@ pub(crate) trait Tasks<Item> {
     fn add_task(&self, item: Item) -> Self::Task;
     fn run_task(&self, item: Item) {
         let task = self.add_task(item);
+        #[cfg(zcash_librustzcash_verif)]
+        let Some(task) = verif::offer(task) else {
+            return;
+        };
         rayon::spawn_fifo(|| task.run());
     }
 }
@@ -207,6 +213,89 @@ pub(crate) trait Tasks<Item> {
 /// A batch scanning task.
 pub(crate) trait Task: Send + 'static {
     fn run(self);
+}
+
+/// Verification hook, compiled only with `--cfg zcash_librustzcash_verif`: a conformance
+/// harness can have the batch tasks queued instead of handed to the rayon pool, and run
+/// them on the calling thread in an order it chooses when the first result is collected.
+#[cfg(zcash_librustzcash_verif)]
+pub mod verif {
+    use super::Task;
+    use std::sync::Mutex;
+
+    type Job = Box<dyn FnOnce() + Send + 'static>;
+    /// Chooses the order in which `n` queued tasks are run: a permutation of `0..n`
+    /// (indices that are missing run last, in queue order).
+    pub type Scheduler = Box<dyn FnMut(usize) -> Vec<usize> + Send + 'static>;
+
+    struct State {
+        queue: Vec<Job>,
+        scheduler: Scheduler,
+        /// sizes of the batches drained so far
+        drained: Vec<usize>,
+    }
+
+    static STATE: Mutex<Option<State>> = Mutex::new(None);
+
+    /// Starts capturing batch tasks; `scheduler` orders each drained batch of tasks.
+    pub fn capture(scheduler: Scheduler) {
+        *STATE.lock().unwrap() = Some(State {
+            queue: vec![],
+            scheduler,
+            drained: vec![],
+        });
+    }
+
+    /// Stops capturing (tasks that are still queued are run in queue order) and returns
+    /// the sizes of the task batches that were drained.
+    pub fn release() -> Vec<usize> {
+        drain();
+        STATE
+            .lock()
+            .unwrap()
+            .take()
+            .map(|s| s.drained)
+            .unwrap_or_default()
+    }
+
+    pub(crate) fn offer<T: Task>(task: T) -> Option<T> {
+        let mut guard = STATE.lock().unwrap();
+        match guard.as_mut() {
+            Some(state) => {
+                state.queue.push(Box::new(move || task.run()));
+                None
+            }
+            None => Some(task),
+        }
+    }
+
+    pub(crate) fn drain() {
+        let jobs = {
+            let mut guard = STATE.lock().unwrap();
+            let Some(state) = guard.as_mut() else {
+                return;
+            };
+            if state.queue.is_empty() {
+                return;
+            }
+            let n = state.queue.len();
+            let mut order = (state.scheduler)(n);
+            order.retain(|i| *i < n);
+            let mut seen = vec![false; n];
+            order.retain(|i| !std::mem::replace(&mut seen[*i], true));
+            order.extend((0..n).filter(|i| !seen[*i]));
+            state.drained.push(n);
+            let mut slots: Vec<Option<Job>> = state.queue.drain(..).map(Some).collect();
+            order
+                .into_iter()
+                .filter_map(|i| slots[i].take())
+                .collect::<Vec<_>>()
+        };
+        // The lock is not held while the tasks run.
+        for job in jobs {
+            job();
+        }
+    }
 }
 
 impl<Item: Task> Tasks<Item> for () {
